@@ -1,6 +1,7 @@
 SPECIFICATION SpecObs
 CONSTANTS
   Assets = {"A", "B"}
+  Bug = "none"
   MaxDepth = 100
   FeeChoice = 3
   PfLevel = TRUE
